@@ -273,3 +273,24 @@ c09_completeness!(
     c09_completeness_n3_m5 = (3, 5), c09_completeness_n3_m6 = (3, 6), c09_completeness_n3_m7 = (3, 7),
     c09_completeness_n4_m5 = (4, 5), c09_completeness_n4_m10 = (4, 10), c09_completeness_n4_m15 = (4, 15),
 );
+
+/// Kani twin of the Verus unit heap_index on the real index helpers, loop-free over the whole usize domain (complete):
+/// children have their node as parent, siblings share their parent, sibling is an involution, parity <=> left/right child
+#[kani::proof]
+fn c09_heap_index_laws_all_indices() {
+    use super::super::{left_child, parent, right_child, sibling};
+    let i: usize = kani::any();
+    kani::assume(i < (usize::MAX - 2) / 2);
+    let (l, r) = (left_child(i), right_child(i));
+    assert!(l == 2 * i + 1 && r == 2 * i + 2, "C09 children positions");
+    assert!(parent(l) == i && parent(r) == i, "C09 parent of both children is the node");
+    assert!(sibling(l) == r && sibling(r) == l, "C09 the two children are siblings");
+    if i > 0 {
+        let s = sibling(i);
+        assert!(s != i && s > 0 && sibling(s) == i, "C09 sibling is an involution");
+        assert!(parent(s) == parent(i), "C09 siblings share their parent");
+        assert!((i % 2 == 1) == (left_child(parent(i)) == i), "C09 odd index <=> left child");
+        assert!((i % 2 == 0) == (right_child(parent(i)) == i), "C09 even index <=> right child");
+        assert!(parent(i) < i, "C09 parent is closer to the root");
+    }
+}
